@@ -117,6 +117,9 @@ func (fc *FnCtx) findLoops() error {
 	stmts := loopStmts(fc.fn.Syntax())
 	for i, li := range fc.loopList {
 		li.Ord = i + 1
+		if len(stmts) == len(fc.loopList) {
+			li.StmtPos, li.StmtEnd = stmts[i].Pos(), stmts[i].End()
+		}
 		if fc.contract != nil {
 			li.Spec = fc.contract.Loops[li.Ord]
 		}
@@ -245,6 +248,21 @@ func (fc *FnCtx) Translate() (err error) {
 // checkFrame: the frame condition is checked semantically at every return
 // (see doReturn); nothing to do statically.
 func (fc *FnCtx) checkFrame() {}
+
+// insideLoopSyntax: the block belongs to the source text of the loop
+// statement (e.g. an error return inside the body) although it is not part
+// of the natural loop.
+func (fc *FnCtx) insideLoopSyntax(li *LoopInfo, b *ssa.BasicBlock) bool {
+	if !li.StmtPos.IsValid() {
+		return false
+	}
+	for _, in := range b.Instrs {
+		if p := in.Pos(); p.IsValid() {
+			return li.StmtPos <= p && p < li.StmtEnd
+		}
+	}
+	return false
+}
 
 func (fc *FnCtx) nextCount(k string) int {
 	fc.counters[k]++
@@ -382,9 +400,25 @@ func (fc *FnCtx) edge(to *ssa.BasicBlock, cond Term) {
 			return
 		}
 	}
+	if from != nil && fc.contract != nil {
+		for _, li := range fc.loopList {
+			if !li.Blocks[from] || li.Blocks[to] || fc.insideLoopSyntax(li, to) {
+				continue
+			}
+			for _, aa := range fc.contract.Asserts {
+				if aa.Anchor == "loopexit" && aa.Ord == li.Ord && aa.Cl != nil {
+					aa.Matched++
+					sc := fc.loopScope(li, fc.env)
+					sc.pos = 0
+					name := fmt.Sprintf("%s:loop%d.exit.assert#%d.%d", fc.name, li.Ord, aa.Cl.N, fc.nextCount(fmt.Sprintf("lx%d_%d", li.Ord, aa.Cl.N)))
+					fc.assert("assert", name, Implies(cond, sc.trBool(aa.Cl.E)), aa.Cl.Src, li.MinPos, false)
+				}
+			}
+		}
+	}
 	if from != nil {
 		for _, li := range fc.loopList {
-			if li.Spec != nil && li.Spec.Exhaustive && li.Blocks[from] && !li.Blocks[to] && from != li.Header {
+			if li.Spec != nil && li.Spec.Exhaustive && li.Blocks[from] && !li.Blocks[to] && from != li.Header && !fc.insideLoopSyntax(li, to) {
 				fc.assert("exhaustive", fmt.Sprintf("%s:loop%d.noearlyexit#%d", fc.name, li.Ord, fc.nextCount(fmt.Sprintf("ex%d", li.Ord))), Not(cond), "the loop is left only when its condition fails (no break/goto out of it)", li.MinPos, false)
 			}
 		}
